@@ -26,6 +26,7 @@ C11Env ==
               O.submission[i][1] \in {"action", "method", "base64RsaPublicKey", "orx:auto-send", "orx:auto-delete"})
   /\ Check("body_class", O.body_class = Opt(S, "style"))
   /\ Check("namespaces_declared", \A i \in 1..Len(S.namespaces) : S.namespaces[i] \in SeqToSet(O.nsdecls))
+  /\ Check("standard_namespaces_keep_their_uris", \A i \in 1..Len(S.std_ns) : S.std_ns[i] \in SeqToSet(O.nsdecls))
   /\ Check("no_namespace_invented", \A i \in 1..Len(O.nsdecls) : O.nsdecls[i] \in SeqToSet(S.namespaces) \cup SeqToSet(S.std_ns))
   /\ Check("attribute_plain", Attr("plain_attr") = Opt(S, "attr_plain"))
   /\ Check("attribute_prefixed", Attr("{" \o S.ns_uri \o "}nsattr") = Opt(S, "attr_ns"))
